@@ -153,6 +153,16 @@ def rule_blend(fx, rep):
     for conds, r, bb in decision_paths(pc):
         if r is not None:
             rr = deep_strip(r)
+            if isinstance(rr, tuple) and rr[0] == "index" and isinstance(deep_strip(rr[1]), tuple) and deep_strip(rr[1])[0] == "constpath":
+                # lookup in a constant table indexed by the kind: every entry is a possible contribution
+                tab = [v for k, v in fx.consts.items() if norm(k) == deep_strip(rr[1])[1]]
+                import re as _re
+                m = _re.match(r"\[(i8|i16|i32|i64|u8|u16|u32|u64); ", tab[0].get("ty", "")) if tab and "bytes" in tab[0] else None
+                if m:
+                    w = {"8": 1, "16": 2, "32": 4, "64": 8}[m.group(1)[1:]]
+                    raw = bytes.fromhex(tab[0]["bytes"])
+                    vals += [int.from_bytes(raw[i:i + w], "little", signed=m.group(1)[0] == "i") for i in range(0, len(raw), w)]
+                    continue
             vals.append(rr[1] if isinstance(rr, tuple) and rr[0] == "const" else None)
     n += 1
     good = bool(vals) and all(isinstance(v, int) and v >= 0 for v in vals)
@@ -254,6 +264,32 @@ def rule_mirror(fx, rep):
             tab[(p, k)] = (fn, d, kk, line)
     kinds = [v["name"] for v in fx.adt("piece::PieceKind")["variants"]]
     rep.sample({"rule": "C16-MIRROR", "tables": {f"{p} {k}": list(v[:3]) for (p, k), v in sorted(tab.items())}})
+    if not tab:
+        # loop form: `for (piece, def) in DEFINITIONS { TABLES[White][piece.array_idx()] = white_pst(def, piece) }` (and the same
+        # for Black): decided per colour on the element of the iterated constant - the table slot, the definition and the kind all
+        # come from the same element, and both colours iterate the same constant. Which kinds the constant lists is not decided.
+        loop = {}
+        for idx, val, line in stores:
+            if len(idx) != 2 or val is None:
+                continue
+            p = enum_name(idx[0][2][0]) if isinstance(idx[0], tuple) and idx[0][0] == "call" and idx[0][1].endswith("array_idx") else None
+            v = deep_strip(val)
+            kx = deep_strip(idx[1][2][0]) if isinstance(idx[1], tuple) and idx[1][0] == "call" and idx[1][1].endswith("array_idx") else None
+            if not (p and isinstance(v, tuple) and v[0] == "call" and len(v[2]) == 2 and isinstance(kx, tuple) and kx[0] == "field"):
+                continue
+            elem = kx[1]
+            d_, k_ = deep_strip(v[2][0]), deep_strip(v[2][1])
+            consts_ = sorted({x[1] for x in walk(elem) if isinstance(x, tuple) and x and x[0] == "constpath"})
+            loop[p] = (v[1].split("::")[-1], k_ == kx, isinstance(d_, tuple) and d_[0] == "field" and d_[1] == elem and d_[2] != kx[2], tuple(consts_))
+        if set(loop) == {"White", "Black"}:
+            n += 1
+            w, b = loop["White"], loop["Black"]
+            good = w[0] == "white_pst" and b[0] == "black_pst" and w[1] and b[1] and w[2] and b[2] and w[3] == b[3] and len(w[3]) == 1
+            rep.obligation(good)
+            rep.notes.append("C16-MIRROR: the piece-square tables are filled in a loop over a constant list of (kind, definition) pairs; which kinds the list contains is not decided")
+            if not good:
+                bad("pst/loop", f"piece-square tables filled in a loop: white {w}, black {b}; both colours must store builder(def, kind) of the same element of the same constant into that kind's slot", ini)
+            kinds = []
     for k in kinds:
         n += 1
         w, b = tab.get(("White", k)), tab.get(("Black", k))
@@ -896,6 +932,32 @@ def rule_bound(fx, rep):
                 for o in t["args"]:
                     if o.get("k") == "const" and "uneval" in o and norm(o["uneval"]).startswith("engine::eval::params::") and "promoted" not in o:
                         referenced.add(norm(o["uneval"]).split("::")[-1])
+    # ... including parameter constants reached through another constant (a table of `(kind, definition)` pairs built from them)
+    via = set()
+    for nm in fx.cone(roots):
+        b = fx.bodies[nm]
+        for blk in b.blocks:
+            ops = [o for s0 in blk["stmts"] if s0.get("rv") for o in b.rvalue_operands(s0["rv"])] + (blk["term"]["args"] if blk["term"]["k"] == "call" else [])
+            for o in ops:
+                if o.get("k") == "const" and "uneval" in o and "promoted" not in o and not norm(o["uneval"]).startswith("engine::eval::params::") and norm(o["uneval"]).startswith("engine::eval::"):
+                    via.add(o["uneval"])
+    seen_c = set()
+    while via:
+        cn = via.pop()
+        if cn in seen_c:
+            continue
+        seen_c.add(cn)
+        cbody = fx.body(cn)
+        if cbody is None:
+            continue
+        for blk in cbody.blocks:
+            ops = [o for s0 in blk["stmts"] if s0.get("rv") for o in cbody.rvalue_operands(s0["rv"])] + (blk["term"]["args"] if blk["term"]["k"] == "call" else [])
+            for o in ops:
+                if o.get("k") == "const" and "uneval" in o and "promoted" not in o:
+                    if norm(o["uneval"]).startswith("engine::eval::params::"):
+                        referenced.add(norm(o["uneval"]).split("::")[-1])
+                    elif norm(o["uneval"]).startswith("engine::eval::"):
+                        via.add(o["uneval"])
     n += 1
     good = referenced == MODELLED and MODELLED <= set(P)
     rep.obligation(good)
